@@ -155,16 +155,16 @@ def negAfter (ws : List Str) : Bool × List Str :=
 /-- Words up to the next key or negation are arguments. -/
 def isArg (x : Str) : Bool := !startsWithDash x && x ≠ ['!']
 
-/-- Hard coded special case: `! --tcp-flags FIN,SYN,RST,ACK SYN` ==> `! --syn`. -/
-def fixSyn (key v : Str) : Str × Str :=
-  if key = s "--tcp-flags" ∧ v = s "!FIN,SYN,RST,ACK SYN" then (s "--syn", ['!']) else (key, v)
+/-- Hard coded special case: `[!] --tcp-flags FIN,SYN,RST,ACK SYN` ==> `[!] --syn`
+(`neg` is the negation mark, `joined` the arguments). -/
+def fixSyn (key neg joined : Str) : Str × Str :=
+  if key = s "--tcp-flags" ∧ joined = s "FIN,SYN,RST,ACK SYN" then (s "--syn", neg) else (key, neg ++ joined)
 
 /-- One option behind its (possibly negated) key: the entry and the remaining words. -/
 def readOpt (neg1 : Bool) (key : Str) (ws1 : List Str) : (Str × Str) × List Str :=
   let na := negAfter ws1
   let args := na.2.takeWhile isArg
-  let v : Str := (if neg1 || na.1 then ['!'] else []) ++ joinWith [' '] args
-  (fixSyn key v, na.2.dropWhile isArg)
+  (fixSyn key (if neg1 || na.1 then ['!'] else []) (joinWith [' '] args), na.2.dropWhile isArg)
 
 /-- The option loop of `parseIPTables` over the words behind `-A chain`.
 Error: the trailing `!`.  `fuel` ≥ number of words. -/
